@@ -1,4 +1,5 @@
-//! Sim J: shards of 4 GiB and more (thorough tier of C04 only: one trial needs about 13 GiB and 10-20 s).
+//! Sim J: shards of 4 GiB and more (thorough tier of C04 only, release profile, one trial at a time: a trial needs about
+//! 13 GiB and 15-30 s, and is skipped when less than 28 GiB of memory are available).
 //! One original shard of 2^32 + t bytes (t in {2, 34, 64, 66}: with and without a partial last block) is encoded
 //! and decoded; the oracle is slot independence itself: every probed 64-byte block (and the partial last block)
 //! of the outputs must equal what the same codec produces for that block coded on its own as a short shard.
@@ -15,6 +16,17 @@ static ONE_AT_A_TIME: std::sync::Mutex<()> = std::sync::Mutex::new(());
 
 pub fn run_jumbo(ch: &mut Chooser, ctx: &mut Ctx) {
     let _turn = ONE_AT_A_TIME.lock().unwrap_or_else(std::sync::PoisonError::into_inner);
+    // opportunistic: only when the machine has room for it right now (a trial that dies for lack of memory would look
+    // like a crash of the code under test); the evidence says how many trials ran and how many were skipped
+    let available_kib = std::fs::read_to_string("/proc/meminfo")
+        .ok()
+        .and_then(|m| m.lines().find_map(|l| l.strip_prefix("MemAvailable:").and_then(|v| v.trim().trim_end_matches("kB").trim().parse::<u64>().ok())))
+        .unwrap_or(0);
+    if available_kib < 28 * 1024 * 1024 {
+        ctx.count("probe.jumbo_trials_skipped_for_lack_of_memory");
+        ev!(ctx, "jumbo stripe skipped: only {available_kib} KiB of memory available");
+        return;
+    }
     let tail = [34usize, 2, 66, 34, 2, 66, 64][ch.pick_usize("jumbo.tail", 7)]; // mostly with a partial last block
     let b = (1usize << 32) + tail;
     let layer = [Layer::Default, Layer::High, Layer::Low][ch.pick_usize("jumbo.layer", 3)]; // (not the wrapper: its API-layer twin would double the memory)
